@@ -1,6 +1,5 @@
 module verif/sim
 
-
 require (
 	github.com/RoaringBitmap/roaring v0.9.4
 	github.com/aristanetworks/goarista v0.0.0-20190704150520-f44d68189fd7
@@ -100,7 +99,6 @@ require (
 	github.com/godbus/dbus/v5 v5.1.0 // indirect
 	github.com/gogo/protobuf v1.3.2 // indirect
 	github.com/golang/snappy v0.0.4 // indirect
-	github.com/google/btree v1.0.0 // indirect
 	github.com/google/gopacket v1.1.19 // indirect
 	github.com/google/uuid v1.3.0 // indirect
 	github.com/gorilla/websocket v1.5.0 // indirect
@@ -284,6 +282,10 @@ replace github.com/cosmos/iavl => github.com/idena-network/iavl v0.12.3-0.202112
 go 1.23
 
 require github.com/idena-network/idena-go v0.0.0
-require github.com/anishathalye/porcupine v1.3.0
+
+require (
+	github.com/anishathalye/porcupine v1.3.0
+	github.com/google/btree v1.0.0
+)
 
 replace github.com/idena-network/idena-go => /repo
